@@ -228,14 +228,45 @@ def run_povm(ctx):
         ctx.violation('C18:exception:get_tetrahedron_POVM', type(ex).__name__ + ': ' + str(ex)[:160], None)
 
 
+BASES_SCALE = 2000
+
+
+def bases_events(ctx, quick):
+    """catalogued orthonormal measurement bases of numqi.unique_determine, one event per call: the projectors rounded at scale
+    BASES_SCALE with a one-column Gram certificate each; TLC decides block structure, rank one, orthogonality and resolution"""
+    import numqi
+    from .c10 import _g, _gram
+    U = numqi.unique_determine
+    ev = []
+    calls = []
+    for d in range(2, 6 if quick else 9):
+        for ai, alpha in enumerate((0.0, 0.3, math.pi / 3, 1.0, math.pi) if not quick else (0.3, math.pi / 3)):
+            for wc in (False, True):
+                calls.append(('get_chebshev_orthonormal', d, wc, alpha))
+    for d in ((4, 6) if quick else (4, 6, 8, 10)):
+        calls.append(('get_element_probing_POVM_eq9', d, False, None))
+    for fn, d, flag, alpha in calls:
+        ctx.case(('bases', fn, d, flag, alpha))
+        try:
+            if fn == 'get_chebshev_orthonormal':
+                P = U.get_chebshev_orthonormal(d, alpha, with_computational_basis=flag)
+            else:
+                P = U.get_element_probing_POVM('eq9', d)
+            P = np.asarray(P)
+            ev.append(dict(op='bases', fn=fn, d=d, flag=flag, S=BASES_SCALE, alpha=repr(alpha), Ps=[_g(x, BASES_SCALE) for x in P], As=[_g(_gram(x, 1), BASES_SCALE) for x in P]))
+        except Exception as ex:
+            ctx.violation('C18:exception:%s' % fn, '%s(d=%d, flag=%s, alpha=%s) raised %s: %s' % (fn, d, flag, alpha, type(ex).__name__, str(ex)[:140]), dict(fn=fn, d=d, flag=flag, alpha=alpha))
+    return ev
+
+
 def run(ctx):
     import numqi
     quick = ctx.tier == 'quick'
     ctx.rule = ('every constructor of numqi.state on parameter grids incl. both end points (d<=%d, n<=%d; rational alpha / q; Horodecki b with rational sqrt(1-b^2)) compared entrywise with the textbook object; '
                 'UPB kinds whose vectors are single-radical Gaussian-integer vectors validated by TLC (orthonormal product set, rank D-|UPB|) and their BES compared with the exact complementary projector; '
-                'closed-form REE/EOF/GME of Werner/isotropic states: exact zero on the separable range incl. the end point; distinct by (constructor, arguments)' % (3 if quick else 4, 4 if quick else 5))
+                'closed-form REE/EOF/GME of Werner/isotropic states: exact zero on the separable range incl. the end point; the catalogued orthonormal measurement bases of numqi.unique_determine (Chebyshev 4PB/5PB, element-probing eq. 9) by rounded projectors with rank-one Gram certificates; distinct by (constructor, arguments)' % (3 if quick else 4, 4 if quick else 5))
     ctx.assumptions = ['TLC/SANY correct', 'tolerance 1e-12 on constructor entries']
-    ctx.not_covered = ['UPB kinds with nested radicals or roots of unity (listed in evidence)', 'Chebyshev measurement bases (cosines of irrational multiples of pi)', 'agreement of the closed forms with the generic routines on the entangled range',
+    ctx.not_covered = ['UPB kinds with nested radicals or roots of unity (listed in evidence)', 'agreement of the closed forms with the generic routines on the entangled range',
                        'Wtype / Dicke constructors (Dicke is covered by C17)']
     r = tlc.run('catalogue/MC_States.tla', 'catalogue/MC_States_%s.cfg' % ('q' if quick else 't'), dump=True, timeout=3000)
     ctx.add_model('MC_States', r)
@@ -243,7 +274,7 @@ def run(ctx):
     replay_states(ctx, states)
     ctx.traces += len(states)
     run_povm(ctx)
-    ev = upb_events(ctx) + closed_events(ctx)
+    ev = upb_events(ctx) + closed_events(ctx) + bases_events(ctx, quick)
     acc, rej, results = tlc.validate_events('catalogue/Trace_Catalogue.tla', 'catalogue/Trace_Catalogue.cfg', ev, shards=8)
     for r in results:
         ctx.states += r.distinct
@@ -254,6 +285,9 @@ def run(ctx):
         e = ev[gi]
         if e['op'] == 'upb':
             ctx.violation('C18:load_upb:orthonormal-product:%s' % e['kind'], 'UPB is not an orthonormal set of product vectors / complement rank differs from D-|UPB|', dict(kind=e['kind']))
+        elif e['op'] == 'bases':
+            ctx.violation('C18:%s:bases' % e['fn'], '%s(d=%d, flag=%s, alpha=%s): not the documented number of orthonormal bases / a projector is not Hermitian rank-one PSD / a block is not orthogonal or does not resolve the identity'
+                          % (e['fn'], e['d'], e['flag'], e['alpha']), dict(fn=e['fn'], d=e['d'], flag=e['flag'], alpha=e['alpha']))
         elif e['op'] == 'closed_shape':
             ctx.violation('C18:%s:shape' % e['fn'], '%s(d=%d, alpha) on the entangled range is not a non-decreasing continuous function ending at the documented value' % (e['fn'], e['d']), {k: v for k, v in e.items() if k != 'vals'})
         elif e['op'] == 'closed_near':
